@@ -23,6 +23,16 @@ Theorem C04_cp_ge_single_latency : forall g k n lat,
 Proof. exact cp_opt_ge_single. Qed.
 Print Assumptions C04_cp_ge_single_latency.
 
+(* ... and cp_opt is ATTAINED: unless it is the trivial 0, some chain of the kernel has exactly this length.  Together
+   with the bound above: cp_opt = length of the longest chain. *)
+Theorem C04_cp_is_attained : forall g k,
+  (forall s isld t w, In ((s, isld), t, w) g -> 0 <= w) ->
+  cp_opt QNum g k = 0 \/
+  exists c e n lat, chain g c e /\ last_of c = n /\ In (n, lat) k /\
+    (match c with _ :: _ :: _ => e + loadw QNum g (first_of c) | _ => e end) + lat == cp_opt QNum g k.
+Proof. exact cp_opt_attained. Qed.
+Print Assumptions C04_cp_is_attained.
+
 (* non-vacuity + the shape that the shipped code got wrong (fixed in /repo): chain 1 -> 2 with edge latency 1,
    instruction 2 has latency 7: the critical path is 8, not max(1, 7) *)
 Example C04_chain_ending_in_expensive_instruction :
